@@ -1,4 +1,4 @@
-import BqVerif.Model.Network
+import BqVerif.Model.RuntimeWitness
 import BqVerif.Drivers.Util
 /-!
 Driver for the `runtime` machine (C07, C12, C15): replays the transition log of
@@ -137,6 +137,32 @@ def parseProg : List Nat → Option Prog
 termination_by l => l.length
 decreasing_by all_goals simp_wf <;> omega
 
+def sTrLine : Tr → String
+  | .step id => s!"w W{id}"
+  | .client j m dies =>
+    let op := match m with
+      | some (.cSubmit ci pid) => s!"submit {ci} {pid}"
+      | some (.cRequest ci) => s!"request {ci}"
+      | some (.cStatus ci) => s!"status {ci}"
+      | some (.cCancel ci) => s!"cancel {ci}"
+      | some .cDisconnect => "disconnect"
+      | some .eof => "eof"
+      | _ => "none"
+    s!"c {j} {op} | {sBool dies}"
+  | .deliver s d asg ord died =>
+    s!"d {sNode s} {sNode d} | {" ".intercalate (asg.map toString)} | {" ".intercalate (ord.map toString)} | {sBool died}"
+
+def witnessLines (name : String) : String :=
+  let r := match name with
+    | "leak" => some leakRun
+    | "drift" => some driftRun
+    | "orphan" => some orphanRun
+    | _ => none
+  match r with
+  | some trs => " ;; ".intercalate (trs.map sTrLine)
+  | none => "unknown-witness"
+
+
 structure St where
   hdr : List String := []
   tbl : Table := []
@@ -150,6 +176,7 @@ def render (n : Net) (acting : NodeId) (r : TrOut) : String :=
 
 def step (st : St) (line : String) : St × String :=
   match groups line with
+  | ["witness", name] :: _ => (st, witnessLines name)
   | ("begin" :: rest) :: _ => ({ hdr := rest }, "ok")
   | ("prog" :: _pid :: toks) :: _ =>
     match nats toks >>= parseProg with
